@@ -413,3 +413,78 @@ Definition b_pending (t : bpc) : list nat := match t with BAttach c => [c] | _ =
 Definition b_initial (t : bpc) : bool := match t with BClose | BAttach _ => true | _ => false end.
 Definition cnt (c : nat) (l : list nat) : nat := count_occ Nat.eq_dec l c.
 Definition slot_list (o : option nat) : list nat := match o with Some c => [c] | None => [] end.
+
+(* ------------------------------------------------------------------------------------------------ *)
+(* I. SessionManager: closers of one connection                                                      *)
+(* ------------------------------------------------------------------------------------------------ *)
+(* connection_lifecycle.go CloseConnection: `remove_first = true` (the repository): under connLock look the entry up AND
+   delete it (the deletion is the run-once latch: only the caller that removed it owns the connection), then release it
+   (Stream.Close, RawConn.Close) outside the lock.  `remove_first = false`: look up under RLock, release, delete afterwards.
+   manager.go onClose (SessionManager.Close): under connLock release every entry still in the map and empty the map. *)
+Record ish := { i_present : bool; i_released : nat }.
+Inductive ipc :=
+| ILookup                 (* CloseConnection: about to look the entry up *)
+| IRelease (own : bool)   (* about to release what it found (own = it found the entry) *)
+| IRemove                 (* release-first variant: about to delete the entry *)
+| IDone
+| IMgrClose.              (* SessionManager.onClose: one critical section *)
+
+Definition istep (remove_first : bool) (t : ipc) (s : ish) : ipc * ish :=
+  match t with
+  | ILookup => (IRelease (i_present s), if remove_first then {| i_present := false; i_released := i_released s |} else s)
+  | IRelease own => (if remove_first then IDone else IRemove,
+                     if own then {| i_present := i_present s; i_released := S (i_released s) |} else s)
+  | IRemove => (IDone, {| i_present := false; i_released := i_released s |})
+  | IMgrClose => (IDone, if i_present s then {| i_present := false; i_released := S (i_released s) |} else s)
+  | IDone => (t, s)
+  end.
+Definition iinit : ish := {| i_present := true; i_released := 0 |}.
+Definition i_initial (t : ipc) : bool := match t with ILookup | IMgrClose => true | _ => false end.
+Definition i_done (t : ipc) : bool := match t with IDone => true | _ => false end.
+
+(* ------------------------------------------------------------------------------------------------ *)
+(* J. dispose.ResourceManager                                                                        *)
+(* ------------------------------------------------------------------------------------------------ *)
+(* manager.go.  Sequential part: Register (refused for a name already present), Unregister, DisposeAll (every registered
+   resource once, in reverse registration order; the lists are emptied; errors collected). *)
+Inductive rmop := RmRegister (id : nat) (fail : bool) | RmUnregister (id : nat) | RmDisposeAll.
+Record rmst := { rm_order : list (nat * bool); rm_log : list nat; rm_results : list nat }.
+Definition rm_has (id : nat) (l : list (nat * bool)) : bool := existsb (fun p => Nat.eqb (fst p) id) l.
+Definition rm_apply (s : rmst) (op : rmop) : rmst :=
+  match op with
+  | RmRegister id f => if rm_has id (rm_order s) then {| rm_order := rm_order s; rm_log := rm_log s; rm_results := rm_results s ++ [1] |}
+                       else {| rm_order := rm_order s ++ [(id, f)]; rm_log := rm_log s; rm_results := rm_results s ++ [0] |}
+  | RmUnregister id => if rm_has id (rm_order s)
+                       then {| rm_order := filter (fun p => negb (Nat.eqb (fst p) id)) (rm_order s); rm_log := rm_log s; rm_results := rm_results s ++ [0] |}
+                       else {| rm_order := rm_order s; rm_log := rm_log s; rm_results := rm_results s ++ [1] |}
+  | RmDisposeAll => {| rm_order := []; rm_log := rm_log s ++ map fst (rev (rm_order s));
+                       rm_results := rm_results s ++ [length (filter snd (rm_order s))] |}
+  end.
+Definition rm_run (ops : list rmop) : rmst := fold_left rm_apply ops {| rm_order := []; rm_log := []; rm_results := [] |}.
+
+(* DisposeWithTimeout: a helper goroutine runs DisposeAll (which may be held up by a slow resource until `t_gate` opens)
+   and sends the result on a channel; the caller selects between that channel and the timeout.  `buffered = true` (the
+   repository): capacity 1, the send never blocks.  `buffered = false`: the send completes only while the caller is still
+   receiving. *)
+Record tsh2 := { t_gate : bool; t_fired : bool; t_waiting : bool; t_sent : bool }.
+Inductive tpc2 :=
+| HRun | HSend | HDone                   (* the helper *)
+| CSelect (prefer_timeout : bool) | CRet (timed_out : bool)   (* the caller; prefer_timeout resolves a select with both cases ready *)
+| TFire | TFired                         (* the timer *)
+| GOpen | GOpened.                       (* the slow resource finishing *)
+
+Definition tstep2 (buffered : bool) (t : tpc2) (s : tsh2) : tpc2 * tsh2 :=
+  match t with
+  | HRun => if t_gate s then (HSend, s) else (t, s)
+  | HSend => if buffered || t_waiting s
+             then (HDone, {| t_gate := t_gate s; t_fired := t_fired s; t_waiting := t_waiting s; t_sent := true |})
+             else (t, s)
+  | CSelect p =>
+      if t_sent s && (negb buffered || negb (p && t_fired s)) then (CRet false, {| t_gate := t_gate s; t_fired := t_fired s; t_waiting := false; t_sent := t_sent s |})
+      else if t_fired s then (CRet true, {| t_gate := t_gate s; t_fired := t_fired s; t_waiting := false; t_sent := t_sent s |})
+      else (t, s)
+  | TFire => (TFired, {| t_gate := t_gate s; t_fired := true; t_waiting := t_waiting s; t_sent := t_sent s |})
+  | GOpen => (GOpened, {| t_gate := true; t_fired := t_fired s; t_waiting := t_waiting s; t_sent := t_sent s |})
+  | HDone | CRet _ | TFired | GOpened => (t, s)
+  end.
+Definition tinit2 : tsh2 := {| t_gate := false; t_fired := false; t_waiting := true; t_sent := false |}.
